@@ -4,7 +4,7 @@
    NOT proved (decided by the resolver-based oracle only, see DESIGN 5.3): that the table produced by the analysis
    (mapper / bind_names / resolve_names) refines CPython's scoping rules. *)
 From Coq Require Import String.
-From PM Require Import Model.Base Model.Renamer Proofs.RenamerProofs Model.RenamerRun Gen.NameGen.
+From PM Require Import Model.Base Model.Renamer Proofs.RenamerProofs Model.RenamerRun Gen.NameGen Model.Resolve Proofs.ResolveProofs.
 Open Scope bool_scope.
 
 (* two different bindings that are visible in a common namespace (their reservation scopes intersect) end up with the
@@ -33,6 +33,30 @@ Theorem C03_reserved_globals_avoided : forall pick should prefix_globals,
     In (b_id b, Some n) (assign pick should prefix_globals bs rg) -> pinned b n.
 Proof. exact assign_avoids_reserved_globals. Qed.
 Print Assumptions C03_reserved_globals_avoided.
+
+(* RESOLUTION IS PRESERVED (abstract namespace trees: a name is looked up in the namespace of the reference, then in
+   its parent, and so on - a superset of the scopes CPython visits).  If the finished table is separated (which the
+   assignment guarantees, next theorem), every namespace holds at most one binding per original name, every binding's
+   own namespace is in its reservation scope, every namespace between a reference and the binding's namespace is in
+   the reservation scope, and the ORIGINAL spelling resolved to the binding from the reference's namespace, then the
+   NEW spelling resolves to the same binding: no capture by a renamed or pinned binding on the way, no merging.
+   The premises about the table (chain covered by the scope, owner in scope) are checked on every real table by leg R. *)
+Theorem C03_resolution_preserved : forall par bs,
+  separated bs -> unique_names bs -> unique_ids bs -> owner_in_scope bs ->
+  forall fuel ns b n0 n l,
+    In b bs -> r_orig b = Some n0 -> r_final b = Some n ->
+    chain fuel par ns (r_owner b) = Some l -> (forall m, In m l -> In m (r_scope b)) ->
+    resolve fuel par bs r_orig ns n0 = Some (r_id b) ->
+    resolve fuel par bs r_final ns n = Some (r_id b).
+Proof. exact resolution_preserved. Qed.
+Print Assumptions C03_resolution_preserved.
+
+Theorem C03_assignment_gives_separation : forall pick should prefix_globals,
+  (forall p l, ~ In (pick p l) l) ->
+  forall owner bs rg, Forall wf_binding bs -> NoDup (map b_id bs) ->
+    separated (table owner (assign pick should prefix_globals bs rg) bs).
+Proof. exact assigned_table_separated. Qed.
+Print Assumptions C03_assignment_gives_separation.
 
 (* the generated names (all of length 1 and 2; the stream is re-read from name_generator.py and the interpreter's
    keyword / builtin tables on every run) are identifiers and are neither keywords nor builtins *)
